@@ -160,7 +160,10 @@ def _restore_module_state():
             pass
 
 
-def reset_process_state():
+HOST_TZ_DEFAULT = "UTC"
+
+
+def reset_process_state(scenario=None):
     """Every scenario starts from the process state demeter's import left behind: the thread's Decimal context and the
     import-time content of every module-level / class-level mutable container, mutable default argument and lru cache in
     demeter (a class-level memo, a module-level cache, `def f(x=[])`).  Without this reset a scenario's outcome could depend
@@ -171,3 +174,13 @@ def reset_process_state():
     if _decimal_context is not None:
         decimal.setcontext(_decimal_context.copy())
     _restore_module_state()  # class-level / module-level containers, mutable default arguments, lru caches
+    # the host's time zone is part of the environment the simulator owns: UTC unless the scenario says otherwise (an
+    # environment fault - every timestamp demeter handles is naive UTC, so no outcome may depend on it)
+    import time
+
+    tz = HOST_TZ_DEFAULT
+    if isinstance(scenario, dict):
+        tz = (scenario.get("opts") or {}).get("host_tz") or HOST_TZ_DEFAULT
+    if os.environ.get("TZ") != tz:
+        os.environ["TZ"] = tz
+        time.tzset()
